@@ -799,3 +799,17 @@ def _check_gaussian(ctx, repo, init: FuncInfo) -> None:
     ctx.check(arg is not None and dotted(arg) == lst, "R-GAUSS", f"{f.qualname}:result", f.loc(ret),
               f"returns {MULTI} of the per-dimension components",
               f"`{norm_text(r)[:70]}` is not the {MULTI} of the components collected in `{lst}`", key_detail="result")
+
+
+# ---- added after the seeded change C36-seed8: per-axis quantities reused across loop iterations
+_inner_run_c36 = run
+
+
+def run(ctx) -> None:  # noqa: F811
+    from ..rules import memo2
+
+    ctx.rule("R-LOOPREUSE", memo2.check_loop_reuse.__doc__)
+    n = memo2.check_loop_reuse(ctx, modules={"abtem.distributions"})
+    ctx.ok("R-LOOPREUSE", "scan abtem.distributions", "abtem/distributions.py",
+           f"{n} loop-carried reuse guards found", nontrivial=False)
+    _inner_run_c36(ctx)
